@@ -454,9 +454,31 @@ static int run_c08(Prng &r, int kind_forced, const std::string &ops_override) {
     for (size_t i = 0; i < b0.digests.size(); i++) g_obs.add("bans:" + std::to_string(i), b0.digests[i]);
     long safe = 0; for (char c : sk) safe += !c; g_stats["battery_calls_safe"] += safe; g_stats["battery_calls_total"] += (long)sk.size();
   }
+  // optionally an iterator is already open when the object is saved for the FIRST time (a save that
+  // compacts or replaces a buffer only does so once): what it yields afterwards must be what an
+  // undisturbed scan yields
+  bool iter_first = with_battery && r.chance(1, 3);
+  ClientState fs; CallResult u0, u1, u2; Call fo, fn1, fn2, fcl; bool iter_first_ok = false;
+  if (iter_first) {
+    fo.op = supported(t.kind, O_TABLE, t.p) ? C_TABLE : C_EXTPREFIX; fo.handle = 0; if (fo.op == C_EXTPREFIX) fo.arg = q.prefixes[0];
+    fn1.op = C_NEXT; fn1.handle = 0; fn1.count = (int)r.range(1, 4);
+    fn2.op = C_NEXT; fn2.handle = 0; fn2.count = 1 << 20;
+    fcl.op = C_CLOSE; fcl.handle = 0;
+    std::vector<Call> scan = {fo, fn1, fn2, fcl};
+    begin("ref", "undisturbed-scan-before-first-save");
+    Probe ps = probe_script(A, scan, std::string(kind_name(t.kind)) + " built scan");
+    iter_first_ok = true; for (char c : ps.skip) if (c) iter_first_ok = false;
+    if (iter_first_ok) { u0.digest = ps.run.digests[0]; u1.digest = ps.run.digests[1]; u2.digest = ps.run.digests[2]; exec_call(A, fs, fo); exec_call(A, fs, fn1); g_shape += "/iter-across-first-save"; }
+  }
   begin("ref", "first-save");
   std::string img1 = save_image(A, (size_t)r.range(1, 4096));
   g_obs.add("img:first", dig_bytes(img1));
+  if (iter_first && iter_first_ok) {
+    begin("var", "iterator-continues-after-first-save");
+    CallResult c2 = exec_call(A, fs, fn2); fs.close_all();
+    if (c2.digest != u2.digest) { emit("violation", "save_disturbs_open_iterator", "C08.a " + triple_str(t) + " elements drawn after the first save differ from an undisturbed scan"); return 1; }
+    g_stats["iterators_open_across_first_save"]++;
+  }
   for (size_t oi = 0; oi < ops.size(); oi++) {
     char op = ops[oi];
     std::string tag = std::string(1, op) + std::to_string(oi);
